@@ -118,3 +118,24 @@ Proof.
       { induction l1 as [|p l1 IH]; intros l2; cbn [app fold_right]; [lia|]. rewrite IH. lia. }
       rewrite Hf. cbn [fold_right]. rewrite file_aec_total_eq. cbn [snd]. lia.
 Qed.
+
+(* ---------- C02 / C11: every index the reader follows resolves ----------
+   Over every history, every item of every written block (and of the buffered one) decodes in its block's final tables: the client /
+   server address, signature, class/type, name, bailiwick, section-list, question, RR, RDATA and malformed-message-data indices stored
+   in items and in table entries all address existing entries of the right table ([gen_qr] / [gen_mm] return None as soon as one does not). *)
+Lemma all_some_of_map {A} (l : list (option A)) (l' : list A) : l = map Some l' -> Forall (fun o => o <> None) l.
+Proof. intros ->. apply Forall_forall. intros o Ho. apply in_map_iff in Ho. destruct Ho as (a & <- & _). discriminate. Qed.
+Theorem indices_resolve pre ops : let x := xrun (x_new pre) ops in
+  Forall (fun b => Forall (fun o => o <> None) (blk_view_qr b) /\ Forall (fun o => o <> None) (blk_view_mm b)) (x_done x ++ [x_blk x]).
+Proof.
+  intros x. destruct (xrun_view ops (x_new pre) (x_new_den pre)) as (Vq & Vm & _). fold x in Vq, Vm.
+  assert (V0q : view_qrs (x_new pre) = []).
+  { unfold view_qrs, x_new. destruct pre as [| | | | |[|ma [|mi [|pv [|[[| | | |ps|]|] [|? ?]]]]]]; reflexivity. }
+  assert (V0m : view_mms (x_new pre) = []).
+  { unfold view_mms, x_new. destruct pre as [| | | | |[|ma [|mi [|pv [|[[| | | |ps|]|] [|? ?]]]]]]; reflexivity. }
+  rewrite V0q in Vq. rewrite V0m in Vm. cbn [app] in Vq, Vm.
+  apply all_some_of_map in Vq. apply all_some_of_map in Vm. unfold view_qrs in Vq. unfold view_mms in Vm.
+  rewrite Forall_forall in *. intros b Hb. apply in_app_or in Hb. split; apply Forall_forall; intros o Ho.
+  - apply Vq. apply in_or_app. destruct Hb as [Hb|[<-|[]]]; [left; apply in_flat_map; eauto|right; exact Ho].
+  - apply Vm. apply in_or_app. destruct Hb as [Hb|[<-|[]]]; [left; apply in_flat_map; eauto|right; exact Ho].
+Qed.
